@@ -661,9 +661,37 @@ func (FramesFaults) Execute(pl engine.Plan, c *engine.RunCtx) *engine.Failure {
 				b = append(b, tailb...)
 				s := simio.NewStream(b, p.Policies[1])
 				msg := frames[0].spec.Empty()
-				what := fmt.Sprintf("body-size field=%d with %d bytes following the header", bs, R)
+				// the corrupt frame is handed over as one of the reader types real
+				// callers pass — among them readers that can tell how much is left
+				// (bytes.Reader, and the io.SectionReader behind iohelper.AtToReader,
+				// which claims about 2^63 bytes): a size field must not be trusted
+				// more because the reader looks big
+				wk := []string{"", "", "bytesreader", "bytesbuffer", "bufio4096", "atreader"}[engine.H(p.Seed^0xc0ffee, uint64(R), bs)%6]
+				var src source
+				if wk == "atreader" {
+					off := int64(engine.H(p.Seed, uint64(R))%3) * 4096
+					dk := simio.NewDisk()
+					hd := dk.Handle(0, nil)
+					if _, werr := hd.WriteAt(b, off); werr != nil {
+						panic(engine.HarnessError{Msg: "storing a corrupt frame: " + werr.Error()})
+					}
+					ar := iohelper.AtToReader(hd, off)
+					src = source{r: ar, pos: func() int {
+						if sk, ok := ar.(io.Seeker); ok {
+							q, _ := sk.Seek(0, io.SeekCurrent)
+							return int(q)
+						}
+						return 0
+					}}
+				} else {
+					src = newSource(wk, s, b)
+				}
+				if wk != "" {
+					st.Inc("probe.C07.corrupt_size_field_read_through_" + wk)
+				}
+				what := fmt.Sprintf("body-size field=%d with %d bytes following the header (reader: %q)", bs, R, wk)
 				c.Status.SetNote("Unmarshal on " + what)
-				n, _, err, pan, consumed := call(s, msg)
+				n, _, err, pan, consumed := callSrc(src, msg)
 				if pan != nil {
 					if _, ok := pan.(simio.LivenessAbort); ok {
 						return livenessOrPanic("C07.corrupt", step, pan, what)
